@@ -17,6 +17,7 @@ pub struct Case {
     /// diagnostics tests are expected not to compile
     pub diagnostics: bool,
     pub tags: Vec<String>,
+    pub extra_events: Vec<EventSpec>,
 }
 
 /// Functions C14 exempts explicitly, plus get_timezone_name (reads the environment by definition).
@@ -27,7 +28,9 @@ pub const EXEMPT: &[&str] = &[
 
 impl Case {
     pub fn mentions_exempt(&self) -> bool {
-        EXEMPT.iter().any(|f| self.program.source.contains(f))
+        // `now!()` is the same call as `now()`
+        let src = self.program.source.replace("!(", "(");
+        EXEMPT.iter().any(|f| src.contains(f))
     }
     /// usable in equality oracles
     pub fn comparable(&self) -> bool {
@@ -60,6 +63,7 @@ pub fn corpus_a() -> Vec<Case> {
                 skip: ex.skip,
                 diagnostics: false,
                 tags: vec![],
+                extra_events: vec![],
             });
             i += 1;
         };
@@ -93,7 +97,13 @@ fn case_from_file(path: &Path, label: String) -> Case {
     let content = std::fs::read_to_string(path).unwrap_or_default();
     let mut tags = vec![];
     let mut metadata = None;
+    let mut extra_events = vec![];
     for line in content.lines() {
+        if let Some(rest) = line.strip_prefix("# event:") {
+            if let Ok(v) = serde_json::from_str::<serde_json::Value>(rest.trim()) {
+                extra_events.push(EventSpec { value: v, metadata: None, secrets: default_secrets() });
+            }
+        }
         if let Some(rest) = line.strip_prefix("# tags:") {
             tags.extend(rest.split(',').map(|s| s.trim().to_string()).filter(|s| !s.is_empty()));
         }
@@ -115,6 +125,7 @@ fn case_from_file(path: &Path, label: String) -> Case {
         skip: t.skip || t.error.is_some(),
         diagnostics: t.check_diagnostics,
         tags,
+        extra_events,
     }
 }
 
@@ -147,4 +158,9 @@ pub fn corpus_c() -> Vec<Case> {
             case_from_file(p, format!("C:{rel}"))
         })
         .collect()
+}
+
+/// Extra events of a corpus-C case: lines `# event: {json}` (value only) in its file.
+pub fn extra_events(c: &Case) -> Vec<EventSpec> {
+    c.extra_events.clone()
 }
